@@ -8,7 +8,7 @@ import random
 # C cfgfn, X ctxfn, K collkind, O optional nat, B bool, GL grammar list
 SIG = {
     'end': '', 'empty': '', 'any': '', 'just': 'L', 'oneof': 'L', 'noneof': 'L', 'select': 'L', 'anyref': '', 'selectref': 'L',
-    'cnext': 'N', 'cnextmaybe': 'N', 'cparse': 'G', 'ccheck': 'G', 'ctake2': 'N', 'cnothing': '', 'cfail': 'N', 'todo': '',
+    'cnext': 'N', 'cnextmaybe': 'N', 'cparse': 'G', 'ccheck': 'G', 'trymapspan': 'G', 'ctake2': 'N', 'cnothing': '', 'cfail': 'N', 'todo': '',
     'then': 'GG', 'ithen': 'GG', 'theni': 'GG', 'delim': 'GGG', 'padded': 'GG',
     'group': ['GL'], 'grouparr': ['GL'],
     'or': 'GG', 'choicet': ['GL'], 'choices': ['GL'], 'ornot': 'G', 'not': 'G', 'andis': 'GG', 'rewind': 'G',
@@ -376,6 +376,15 @@ def ctx_family():
     out.append(('withctx', ('vtoks', [B]), ('then', ('ornot', ('iwctx', ('just', [A]), ('mwctx', ('just', [51])))), ('mwctx', ('cfgjust', 'seqctx', [A])))))
     out.append(('iwctx', opener, ('mapctx', 'lenof', ('collect', 'vec', ('cfgrep', 'exactlyctx', ('rep', ('just', [50]), 0, None))))))
     out.append(('iwctx', opener, ('mapctx', ('ctag', 3), ('mwctx', ('any',)))))
+    # a configured sequence may be EMPTY (zero echoed delimiters): `just(placeholder).configure(seq = ctx)` is then `just("")`,
+    # whatever the placeholder was
+    opener0 = ('collect', 'string', ('rep', ('oneof', [A, B]), 0, 2))
+    rest = ('collect', 'string', ('rep', ('any',), 0, None))
+    for ph in ([B], [A, B], []):
+        out.append(('withctx', ('vtoks', []), ('then', ('cfgjust', 'seqctx', ph), rest)))
+        out.append(('withctx', ('vtoks', [A]), ('then', ('cfgjust', 'seqctx', ph), rest)))
+        out.append(('twctx', opener0, ('then', ('just', [50]), ('then', ('cfgjust', 'seqctx', ph), rest))))
+        out.append(('iwctx', opener0, ('collect', 'vec', ('rep', ('then', ('just', [50]), ('cfgjust', 'seqctx', ph)), 0, None))))
     return out
 
 
